@@ -5685,12 +5685,8 @@ public:
             return true;
         }
 
-        const auto prev_block_length =
-            set_group_block_length(*header.blockLength());
-        sbepp::visit_children(g, c, *this);
-        set_group_block_length(prev_block_length);
-
-        return !is_valid();
+        return on_group_entries(
+            g, c, *header.blockLength(), sbepp::is_flat_group<T>{});
     }
 
     template<typename T, typename Cursor>
@@ -5751,6 +5747,42 @@ private:
     bool valid{true};
     // current group's blockLength, used to validate entry
     std::size_t group_block_length{};
+
+    // entries of a flat group have the same size, there's no need to visit
+    // them one by one (which takes `numInGroup` iterations even when
+    // `blockLength` is 0)
+    template<typename T, typename Cursor>
+    SBEPP_CPP14_CONSTEXPR bool on_group_entries(
+        T g,
+        Cursor& c,
+        const std::size_t block_length,
+        std::true_type /*is_flat*/) noexcept
+    {
+        const std::size_t count = g.size();
+        if((block_length != 0) && (count > (size / block_length)))
+        {
+            valid = false;
+            return true;
+        }
+
+        size -= count * block_length;
+        c.pointer() += count * block_length;
+        return false;
+    }
+
+    template<typename T, typename Cursor>
+    SBEPP_CPP14_CONSTEXPR bool on_group_entries(
+        T g,
+        Cursor& c,
+        const std::size_t block_length,
+        std::false_type /*is_flat*/) noexcept
+    {
+        const auto prev_block_length = set_group_block_length(block_length);
+        sbepp::visit_children(g, c, *this);
+        set_group_block_length(prev_block_length);
+
+        return !is_valid();
+    }
 
     SBEPP_CPP14_CONSTEXPR bool
         validate_and_subtract(const std::size_t n) noexcept
